@@ -237,6 +237,8 @@ pub enum RStep {
     Connect(u8),
     UseOpen(u8),
     Reload,
+    /// reload with a new leaf *and* a new client CA (only with `client_ca`; at most twice, then a plain reload)
+    ReloadClientCa,
 }
 
 #[derive(Clone, Debug, Hash, PartialEq, Eq, Serialize, Deserialize)]
@@ -246,6 +248,10 @@ pub struct ReloadCase {
     /// the server is configured with a client CA (before and after every reload)
     #[serde(default)]
     pub client_ca: bool,
+    /// every client keeps one rustls ClientConfig (and with it its TLS session cache) for all its connections, as a
+    /// long-lived third-party client does; false: a fresh configuration per connection (what `tls_connect` does)
+    #[serde(default)]
+    pub keep_client_config: bool,
 }
 
 pub fn check_reload(c: &ReloadCase) -> Outcome {
@@ -259,14 +265,24 @@ pub fn check_reload(c: &ReloadCase) -> Outcome {
         (files.write(&format!("s{generation}.pem"), &p), files.write(&format!("s{generation}.key"), &k), der)
     };
     let (cp, kp, mut current_der) = write_leaf(0);
-    let client_ca = make_ca("client ca", c.alg);
+    // three generations of client CA (rotated by ReloadClientCa), each with a client leaf issued under it
+    let client_cas: Vec<Ca> = (0..3).map(|g| make_ca(&format!("client ca {g}"), c.alg)).collect();
     let other_ca = make_ca("other ca", c.alg);
-    let client_ca_path = files.write("clientca.pem", &client_ca.pem);
-    let good = make_leaf(&["client.test".into()], "client", Some(&client_ca), c.alg, true);
+    let client_ca_paths: Vec<String> = client_cas.iter().enumerate().map(|(g, ca)| files.write(&format!("clientca{g}.pem"), &ca.pem)).collect();
+    let good_paths: Vec<(String, String)> = client_cas
+        .iter()
+        .enumerate()
+        .map(|(g, ca)| {
+            let l = make_leaf(&["client.test".into()], "client", Some(ca), c.alg, true);
+            (files.write(&format!("cgood{g}.pem"), &l.0), files.write(&format!("cgood{g}.key"), &l.1))
+        })
+        .collect();
     let bad = make_leaf(&["client.test".into()], "client", Some(&other_ca), c.alg, true);
-    let good_paths = (files.write("cgood.pem", &good.0), files.write("cgood.key", &good.1));
     let bad_paths = (files.write("cbad.pem", &bad.0), files.write("cbad.key", &bad.1));
-    let ca_opt: Option<&str> = if c.client_ca { Some(client_ca_path.as_str()) } else { None };
+    let mut ca_gen = 0usize;
+    let ca_opt: Option<&str> = if c.client_ca { Some(client_ca_paths[0].as_str()) } else { None };
+    // long-lived client configurations (keep_client_config), by certificate file
+    let mut kept: std::collections::HashMap<String, Arc<tokio_rustls::rustls::ClientConfig>> = std::collections::HashMap::new();
     let r: Result<(u32, u32, bool), (String, String)> = rt().block_on(async {
         let identity = tls::make_tls_identity(&cp, &kp, ca_opt).await.map_err(|e| ("c17-config-error".to_string(), format!("{e}")))?;
         // open connections: (client stream, server stream, generation)
@@ -277,17 +293,34 @@ pub fn check_reload(c: &ReloadCase) -> Outcome {
         for (i, st) in c.steps.iter().enumerate() {
             match st {
                 RStep::Connect(cc) => {
-                    let (ccert, ckey) = match cc % 3 {
+                    // 0 none, 1 under the current client CA, 2 under another CA, 3 under the previous client CA (before a rotation)
+                    let kind = if cc % 4 == 3 && ca_gen == 0 { 2 } else { cc % 4 };
+                    let (ccert, ckey) = match kind {
                         0 => (None, None),
-                        1 => (Some(good_paths.0.as_str()), Some(good_paths.1.as_str())),
+                        1 => (Some(good_paths[ca_gen].0.as_str()), Some(good_paths[ca_gen].1.as_str())),
+                        3 => (Some(good_paths[ca_gen - 1].0.as_str()), Some(good_paths[ca_gen - 1].1.as_str())),
                         _ => (Some(bad_paths.0.as_str()), Some(bad_paths.1.as_str())),
                     };
-                    let want_ok = !c.client_ca || cc % 3 == 1;
+                    let want_ok = !c.client_ca || kind == 1;
                     let (cio, sio) = tokio::io::duplex(1 << 16);
                     // as run_listener does: the identity is loaded per accepted connection
                     let cfg = identity.load_full();
                     let acc = tokio::spawn(async move { tokio_rustls::TlsAcceptor::from(cfg).accept(sio).await });
-                    let cres = tls::tls_connect(cio, "reload.test", ccert, ckey, Some(ca_path.as_str()), false).await;
+                    let cres = if c.keep_client_config {
+                        let key = ccert.unwrap_or("none").to_string();
+                        let cfg = match kept.get(&key) {
+                            Some(cfg) => cfg.clone(),
+                            None => {
+                                let cfg = Arc::new(tls::make_client_config(ccert, ckey, Some(ca_path.as_str()), false, Some(&["http/1.1"])).await.map_err(|e| ("c17-config-error".to_string(), format!("{e}")))?);
+                                kept.insert(key, cfg.clone());
+                                cfg
+                            }
+                        };
+                        let name = tokio_rustls::rustls::pki_types::ServerName::try_from("reload.test".to_string()).expect("name");
+                        tokio_rustls::TlsConnector::from(cfg).connect(name, cio).await.map(tokio_rustls::TlsStream::Client).map_err(|e| e.to_string())
+                    } else {
+                        tls::tls_connect(cio, "reload.test", ccert, ckey, Some(ca_path.as_str()), false).await.map_err(|e| e.to_string())
+                    };
                     let sres = acc.await.unwrap();
                     // with TLS 1.3 a refused client certificate surfaces on the first read: exchange a byte
                     let mut ok = cres.is_ok() && sres.is_ok();
@@ -308,7 +341,7 @@ pub fn check_reload(c: &ReloadCase) -> Outcome {
                     }
                     if ok != want_ok {
                         let sig = if ok { "c17-reload-unauthenticated-client-accepted" } else { "c17-reload-connect-failed" };
-                        return Err((sig.to_string(), format!("step {i}: after {generation} reload(s), server client-CA configured: {}, client certificate {}: the connection {} but should have {}", c.client_ca, ["none", "under the client CA", "under another CA"][(cc % 3) as usize], if ok { "succeeded" } else { "failed" }, if want_ok { "succeeded" } else { "failed" })));
+                        return Err((sig.to_string(), format!("step {i}: after {generation} reload(s) ({ca_gen} client-CA rotation(s)), server client-CA configured: {}, client certificate {}{}: the connection {} but should have {}", c.client_ca, ["none", "under the current client CA", "under another CA", "under the previous client CA"][kind as usize], if c.keep_client_config { " (client keeps its TLS configuration and session cache)" } else { "" }, if ok { "succeeded" } else { "failed" }, if want_ok { "succeeded" } else { "failed" })));
                     }
                     if let (true, Some((cs, ss))) = (ok, pair) {
                         let seen = cs.get_ref().1.peer_certificates().and_then(|c| c.first()).map(|c| c.as_ref().to_vec());
@@ -340,10 +373,14 @@ pub fn check_reload(c: &ReloadCase) -> Outcome {
                         uses_after_reload += 1;
                     }
                 }
-                RStep::Reload => {
+                RStep::Reload | RStep::ReloadClientCa => {
                     generation += 1;
+                    if *st == RStep::ReloadClientCa && c.client_ca && ca_gen + 1 < client_cas.len() {
+                        ca_gen += 1;
+                    }
+                    let ca_now: Option<&str> = if c.client_ca { Some(client_ca_paths[ca_gen].as_str()) } else { None };
                     let (cp, kp, der) = write_leaf(generation);
-                    tls::reload_tls_identity(&identity, &cp, &kp, ca_opt).await.map_err(|e| ("c17-reload-failed".to_string(), format!("{e}")))?;
+                    tls::reload_tls_identity(&identity, &cp, &kp, ca_now).await.map_err(|e| ("c17-reload-failed".to_string(), format!("{e}")))?;
                     current_der = der;
                     if !open.is_empty() {
                         reloaded_with_live = true;
@@ -361,7 +398,7 @@ pub fn check_reload(c: &ReloadCase) -> Outcome {
 
 pub fn run(ctx: &Ctx, rep: &mut Report) {
     rep.rule = "matrix {server leaf issued by the trusted CA / another CA / self-signed} x {requested name is a SAN / differs / SAN in other letter case} x {skip-verify on/off} x {client certificate none / under the client CA / under another CA} x {server client-CA configured / not} enumerated COMPLETELY (108 combinations) x 3 key algorithms in every run with fresh rcgen PKIs, \
-                plus random cases with generated SAN lists (incl. wildcards and several names); stateful part: generated sequences of {connect with no / a good / a foreign client certificate, use an open connection, reload identity}, with and without a client CA on the server. Oracle: decision table of the statement; success = both handshakes complete and one byte is echoed each way; no client certificate is requested without a client CA; \
+                plus random cases with generated SAN lists (incl. wildcards and several names); stateful part: generated sequences of {connect with no client certificate / one under the current client CA / under a foreign CA / under the client CA that was replaced, use an open connection, reload identity, reload identity with a new client CA}, with and without a client CA on the server, clients building a fresh TLS configuration per connection or keeping one (with its session cache) for all their connections. Oracle: decision table of the statement; success = both handshakes complete and one byte is echoed each way; no client certificate is requested without a client CA; \
                 after reload every new handshake presents the new leaf, is still authenticated as configured (client CA), and every established connection still echoes. Non-trivial = a case whose expected outcome is failure, or a reload with a live connection. Distinct = distinct case value."
         .into();
     rep.assumptions = vec![
@@ -409,7 +446,8 @@ pub fn run(ctx: &Ctx, rep: &mut Report) {
         ctx.tier.pick(600, 12_000),
         10,
         || {
-            (prop::collection::vec(prop_oneof![3 => (0u8..3).prop_map(RStep::Connect), 3 => any::<u8>().prop_map(RStep::UseOpen), 2 => Just(RStep::Reload)], 2..14), 0u8..3, any::<bool>()).prop_map(|(steps, alg, client_ca)| ReloadCase { steps, alg, client_ca })
+            (prop::collection::vec(prop_oneof![4 => (0u8..4).prop_map(RStep::Connect), 3 => any::<u8>().prop_map(RStep::UseOpen), 2 => Just(RStep::Reload), 1 => Just(RStep::ReloadClientCa)], 2..14), 0u8..3, any::<bool>(), any::<bool>())
+                .prop_map(|(steps, alg, client_ca, keep_client_config)| ReloadCase { steps, alg, client_ca, keep_client_config })
         },
         check_reload,
     );
